@@ -194,165 +194,386 @@ mod cand {
 
 
 // ------------------------------------------------------------------------------------------------
-// TURN: a real TurnClient / STUN probe (reached through PeerConnection gathering) talks to a
-// scripted server owned by the harness; the requests it sends are the observed outputs
+// TURN: a real TurnClient / STUN probe (reached through IceTransport gathering and connectivity
+// checks over a relay candidate) talks to a scripted server owned by the harness; everything it
+// sends is the observed output
 // ------------------------------------------------------------------------------------------------
 mod turncap {
     use super::*;
-    use rustrtc::{IceServer, PeerConnection, RtcConfiguration};
+    use rustrtc::transports::ice::{IceParameters, IceTransport};
+    use rustrtc::{IceServer, IceTransportPolicy, RtcConfiguration};
     use std::sync::{Arc, Mutex};
     use stun::attributes::*;
-    use stun::message::{Getter, Message, Setter, CLASS_ERROR_RESPONSE, CLASS_REQUEST, CLASS_SUCCESS_RESPONSE, METHOD_ALLOCATE, METHOD_BINDING, MessageType};
+    use stun::message::{Message, Setter, CLASS_ERROR_RESPONSE, CLASS_INDICATION, CLASS_REQUEST, CLASS_SUCCESS_RESPONSE, METHOD_ALLOCATE, METHOD_BINDING,
+        METHOD_CHANNEL_BIND, METHOD_CREATE_PERMISSION, METHOD_REFRESH, METHOD_SEND, MessageType};
 
-    pub struct Captured { pub bytes: Vec<u8> }
+    /// one unit the client sent (a UDP datagram, or one frame cut out of the TCP stream as the
+    /// client itself frames it), with the challenge that was current when it arrived
+    pub struct Captured { pub bytes: Vec<u8>, pub realm: String, pub nonce: String, pub alloc_index: Option<usize> }
 
-    async fn serve(sock: Arc<tokio::net::UdpSocket>, realm: String, nonce: String, user: String, pass: String, relayed: SocketAddr, mapped: SocketAddr, log: Arc<Mutex<Vec<Captured>>>) {
-        let mut buf = [0u8; 2048];
-        loop {
-            let Ok((n, from)) = sock.recv_from(&mut buf).await else { return };
-            let bytes = buf[..n].to_vec();
-            log.lock().unwrap().push(Captured { bytes: bytes.clone() });
+    pub struct Scenario {
+        pub name: &'static str, pub user: &'static str, pub pass: &'static str,
+        /// error responses to the first Allocate requests: (code, realm, nonce); then success
+        pub challenges: Vec<(u16, &'static str, &'static str)>,
+        pub relayed: &'static str, pub mapped: &'static str,
+        pub peers: Vec<&'static str>, pub bind_ok: bool, pub relay_only: bool, pub tcp: bool,
+    }
+
+    struct Srv { sc_user: String, sc_pass: String, challenges: Vec<(u16, String, String)>, relayed: SocketAddr, mapped: SocketAddr, bind_ok: bool,
+        allocs: usize, realm: String, nonce: String, log: Vec<Captured>, raw_stream: Vec<u8> }
+
+    impl Srv {
+        /// returns the response to send (if any)
+        fn handle(&mut self, bytes: &[u8], from: SocketAddr) -> Option<Vec<u8>> {
+            let mut cap = Captured { bytes: bytes.to_vec(), realm: self.realm.clone(), nonce: self.nonce.clone(), alloc_index: None };
             let mut m = Message::new();
-            m.raw = bytes;
-            if m.decode().is_err() || m.typ.class != CLASS_REQUEST { continue; }
+            m.raw = bytes.to_vec();
+            let is_stun = bytes.first().map(|b| *b < 0x40).unwrap_or(false) && m.decode().is_ok();
+            if !is_stun || m.typ.class != CLASS_REQUEST { self.log.push(cap); return None; }
             let mut resp = Message::new();
             resp.transaction_id = m.transaction_id;
-            let key = stun::integrity::MessageIntegrity::new_long_term_integrity(user.clone(), realm.clone(), pass.clone());
+            let key = |realm: &str, s: &Srv| stun::integrity::MessageIntegrity::new_long_term_integrity(s.sc_user.clone(), realm.to_string(), s.sc_pass.clone());
             if m.typ.method == METHOD_BINDING {
                 resp.typ = MessageType::new(METHOD_BINDING, CLASS_SUCCESS_RESPONSE);
                 resp.write_header();
-                stun::xoraddr::XorMappedAddress { ip: mapped.ip(), port: mapped.port() }.add_to(&mut resp).unwrap();
+                stun::xoraddr::XorMappedAddress { ip: self.mapped.ip(), port: self.mapped.port() }.add_to(&mut resp).unwrap();
                 stun::fingerprint::FINGERPRINT.add_to(&mut resp).unwrap();
-            } else if m.typ.method == METHOD_ALLOCATE && !m.contains(ATTR_MESSAGE_INTEGRITY) {
-                resp.typ = MessageType::new(METHOD_ALLOCATE, CLASS_ERROR_RESPONSE);
+            } else if m.typ.method == METHOD_ALLOCATE {
+                let i = self.allocs;
+                self.allocs += 1;
+                cap.alloc_index = Some(i);
+                if i < self.challenges.len() {
+                    let (code, realm, nonce) = self.challenges[i].clone();
+                    resp.typ = MessageType::new(METHOD_ALLOCATE, CLASS_ERROR_RESPONSE);
+                    resp.write_header();
+                    stun::error_code::ErrorCodeAttribute { code: stun::error_code::ErrorCode(code), reason: b"challenge".to_vec() }.add_to(&mut resp).unwrap();
+                    stun::textattrs::TextAttribute::new(ATTR_REALM, realm.clone()).add_to(&mut resp).unwrap();
+                    stun::textattrs::TextAttribute::new(ATTR_NONCE, nonce.clone()).add_to(&mut resp).unwrap();
+                    self.realm = realm;
+                    self.nonce = nonce;
+                } else {
+                    resp.typ = MessageType::new(METHOD_ALLOCATE, CLASS_SUCCESS_RESPONSE);
+                    resp.write_header();
+                    stun::xoraddr::XorMappedAddress { ip: self.relayed.ip(), port: self.relayed.port() }.add_to_as(&mut resp, ATTR_XOR_RELAYED_ADDRESS).unwrap();
+                    stun::xoraddr::XorMappedAddress { ip: from.ip(), port: from.port() }.add_to(&mut resp).unwrap();
+                    resp.add(ATTR_LIFETIME, &600u32.to_be_bytes());
+                    key(&self.realm, self).add_to(&mut resp).unwrap();
+                    stun::fingerprint::FINGERPRINT.add_to(&mut resp).unwrap();
+                }
+            } else if m.typ.method == METHOD_CHANNEL_BIND && !self.bind_ok {
+                resp.typ = MessageType::new(METHOD_CHANNEL_BIND, CLASS_ERROR_RESPONSE);
                 resp.write_header();
-                stun::error_code::ErrorCodeAttribute { code: stun::error_code::ErrorCode(401), reason: b"Unauthorized".to_vec() }.add_to(&mut resp).unwrap();
-                stun::textattrs::TextAttribute::new(ATTR_REALM, realm.clone()).add_to(&mut resp).unwrap();
-                stun::textattrs::TextAttribute::new(ATTR_NONCE, nonce.clone()).add_to(&mut resp).unwrap();
+                stun::error_code::ErrorCodeAttribute { code: stun::error_code::ErrorCode(400), reason: b"no channels here".to_vec() }.add_to(&mut resp).unwrap();
             } else {
                 resp.typ = MessageType::new(m.typ.method, CLASS_SUCCESS_RESPONSE);
                 resp.write_header();
-                stun::xoraddr::XorMappedAddress { ip: relayed.ip(), port: relayed.port() }.add_to_as(&mut resp, ATTR_XOR_RELAYED_ADDRESS).unwrap();
-                stun::xoraddr::XorMappedAddress { ip: from.ip(), port: from.port() }.add_to(&mut resp).unwrap();
-                resp.add(ATTR_LIFETIME, &600u32.to_be_bytes());
-                key.add_to(&mut resp).unwrap();
+                if m.typ.method == METHOD_REFRESH { resp.add(ATTR_LIFETIME, &m.get(ATTR_LIFETIME).unwrap_or(vec![0, 0, 2, 88])); }
+                key(&self.realm, self).add_to(&mut resp).unwrap();
                 stun::fingerprint::FINGERPRINT.add_to(&mut resp).unwrap();
             }
-            let _ = sock.send_to(&resp.raw, from).await;
+            self.log.push(cap);
+            Some(resp.raw)
         }
     }
 
-    struct Scenario { user: &'static str, pass: &'static str, realm: &'static str, nonce: &'static str, relayed: &'static str, mapped: &'static str }
+    async fn serve_udp(sock: Arc<tokio::net::UdpSocket>, srv: Arc<Mutex<Srv>>) {
+        let mut buf = [0u8; 2048];
+        loop {
+            let Ok((n, from)) = sock.recv_from(&mut buf).await else { return };
+            let resp = srv.lock().unwrap().handle(&buf[..n], from);
+            if let Some(r) = resp { let _ = sock.send_to(&r, from).await; }
+        }
+    }
 
-    async fn run_one(sc: &Scenario) -> (Vec<Captured>, Vec<IceCandidate>) {
-        let sock = Arc::new(tokio::net::UdpSocket::bind("127.0.0.1:0").await.unwrap());
-        let port = sock.local_addr().unwrap().port();
-        let log = Arc::new(Mutex::new(vec![]));
-        let srv = tokio::spawn(serve(sock.clone(), sc.realm.into(), sc.nonce.into(), sc.user.into(), sc.pass.into(), sc.relayed.parse().unwrap(), sc.mapped.parse().unwrap(), log.clone()));
+    /// TCP: the stream is recorded raw; to keep the client going the server cuts it the way the
+    /// client frames it (16-bit length prefix) and answers in the same framing
+    async fn serve_tcp(l: tokio::net::TcpListener, srv: Arc<Mutex<Srv>>) {
+        use tokio::io::{AsyncReadExt, AsyncWriteExt};
+        let Ok((mut st, from)) = l.accept().await else { return };
+        loop {
+            let mut h = [0u8; 2];
+            if st.read_exact(&mut h).await.is_err() { return; }
+            let n = u16::from_be_bytes(h) as usize;
+            let mut body = vec![0u8; n];
+            if st.read_exact(&mut body).await.is_err() { return; }
+            let resp = { let mut s = srv.lock().unwrap(); s.raw_stream.extend_from_slice(&h); s.raw_stream.extend_from_slice(&body); s.handle(&body, from) };
+            if let Some(r) = resp {
+                let mut f = (r.len() as u16).to_be_bytes().to_vec();
+                f.extend_from_slice(&r);
+                if st.write_all(&f).await.is_err() { return; }
+            }
+        }
+    }
+
+    pub struct Outcome { pub caps: Vec<Captured>, pub cands: Vec<IceCandidate>, pub raw_stream: Vec<u8> }
+
+    async fn run_one(sc: &Scenario) -> Outcome {
+        let srv = Arc::new(Mutex::new(Srv { sc_user: sc.user.into(), sc_pass: sc.pass.into(),
+            challenges: sc.challenges.iter().map(|(c, r, n)| (*c, r.to_string(), n.to_string())).collect(), relayed: sc.relayed.parse().unwrap(), mapped: sc.mapped.parse().unwrap(),
+            bind_ok: sc.bind_ok, allocs: 0, realm: String::new(), nonce: String::new(), log: vec![], raw_stream: vec![] }));
+        let (port, task) = if sc.tcp {
+            let l = tokio::net::TcpListener::bind("127.0.0.1:0").await.unwrap();
+            (l.local_addr().unwrap().port(), tokio::spawn(serve_tcp(l, srv.clone())))
+        } else {
+            let sock = Arc::new(tokio::net::UdpSocket::bind("127.0.0.1:0").await.unwrap());
+            (sock.local_addr().unwrap().port(), tokio::spawn(serve_udp(sock, srv.clone())))
+        };
         let mut cfg = RtcConfiguration::default();
-        cfg.ice_servers.push(IceServer::new(vec![format!("turn:127.0.0.1:{port}?transport=udp")]).with_credential(sc.user, sc.pass));
-        cfg.ice_servers.push(IceServer::new(vec![format!("stun:127.0.0.1:{port}")]));
-        cfg.stun_timeout = std::time::Duration::from_millis(1500);
-        let pc = PeerConnection::new(cfg);
-        let _dc = pc.create_data_channel("c", None);
-        let _ = pc.create_offer().await;
+        cfg.ice_servers.push(IceServer::new(vec![format!("turn:127.0.0.1:{port}?transport={}", if sc.tcp { "tcp" } else { "udp" })]).with_credential(sc.user, sc.pass));
+        if !sc.tcp { cfg.ice_servers.push(IceServer::new(vec![format!("stun:127.0.0.1:{port}")])); }
+        if sc.relay_only { cfg.ice_transport_policy = IceTransportPolicy::Relay; }
+        cfg.stun_timeout = std::time::Duration::from_millis(1200);
+        let (ice, runner) = IceTransport::new(cfg);
+        let run = tokio::spawn(runner);
+        ice.set_role(IceRole::Controlling);
+        let _ = ice.start_gathering();
         let t0 = std::time::Instant::now();
-        while pc.ice_transport().gather_state() != rustrtc::IceGathererState::Complete && t0.elapsed() < std::time::Duration::from_secs(8) {
-            tokio::time::sleep(std::time::Duration::from_millis(20)).await;
+        while ice.gather_state() != rustrtc::IceGathererState::Complete && t0.elapsed() < std::time::Duration::from_secs(8) {
+            tokio::time::sleep(std::time::Duration::from_millis(10)).await;
         }
-        let cands = pc.ice_transport().local_candidates();
-        pc.close();
-        drop(pc);
-        tokio::time::sleep(std::time::Duration::from_millis(150)).await;
-        srv.abort();
-        let caps = std::mem::take(&mut *log.lock().unwrap());
-        (caps, cands)
+        let cands = ice.local_candidates();
+        if !sc.peers.is_empty() {
+            for p in &sc.peers { ice.add_remote_candidate(IceCandidate::host(p.parse().unwrap(), 1)); }
+            let _ = ice.start(IceParameters::new("RMTU", "remote-ice-password-0123"));
+            // CreatePermission -> ChannelBind -> first check per remote candidate
+            let want = sc.peers.len() * 3;
+            let t1 = std::time::Instant::now();
+            while t1.elapsed() < std::time::Duration::from_millis(2500) {
+                let n = srv.lock().unwrap().log.iter().filter(|c| c.alloc_index.is_none()).count();
+                if n >= want + 1 { break; }
+                tokio::time::sleep(std::time::Duration::from_millis(20)).await;
+            }
+        }
+        ice.stop();
+        tokio::time::sleep(std::time::Duration::from_millis(120)).await;
+        drop(ice);
+        run.abort();
+        task.abort();
+        let mut s = srv.lock().unwrap();
+        Outcome { caps: std::mem::take(&mut s.log), cands, raw_stream: std::mem::take(&mut s.raw_stream) }
     }
 
-    fn text(m: &Message, t: AttrType) -> Option<Vec<u8>> { m.get(t).ok() }
+    fn ref_peer(m: &Message) -> Option<SocketAddr> {
+        let mut x = stun::xoraddr::XorMappedAddress::default();
+        x.get_from_as(m, ATTR_XOR_PEER_ADDRESS).ok()?;
+        Some(SocketAddr::new(x.ip, x.port))
+    }
+    fn b(s: &str) -> String { bytes_term(s.as_bytes()) }
+    fn peer_term(a: &SocketAddr) -> String { addr_term(a) }
 
     pub fn cases(out: &mut Out, summary: &mut serde_json::Map<String, serde_json::Value>) {
-        let scenarios = [
-            Scenario { user: "alice", pass: "secret", realm: "example.org", nonce: "f//499k954d6OL34oL9FSTvy64sA", relayed: "198.51.100.7:49152", mapped: "203.0.113.9:40000" },
-            Scenario { user: "user:with:colons", pass: "p@ss:w0rd", realm: "r e a l m", nonce: "n", relayed: "[2001:db8::77]:50000", mapped: "[2001:db8::9]:40001" },
-            Scenario { user: "üser-ж", pass: "", realm: "exämple.org", nonce: "0123456789abcdef0123456789abcdef0123456789abcdef", relayed: "192.0.2.200:65535", mapped: "192.0.2.201:1" },
-            Scenario { user: "u", pass: "a-very-long-password-a-very-long-password-a-very-long-password-a-very-long-password", realm: "x", nonce: "abc", relayed: "10.1.2.3:1024", mapped: "10.9.9.9:9" },
+        let scenarios = vec![
+            Scenario { name: "single challenge, srflx + relay", user: "alice", pass: "secret", challenges: vec![(401, "example.org", "f//499k954d6OL34oL9FSTvy64sA")],
+                relayed: "198.51.100.7:49152", mapped: "203.0.113.9:40000", peers: vec![], bind_ok: true, relay_only: false, tcp: false },
+            Scenario { name: "non-ASCII credentials, v6 relay", user: "üser-ж", pass: "", challenges: vec![(401, "exämple.org", "0123456789abcdef0123456789abcdef0123456789abcdef")],
+                relayed: "[2001:db8::77]:50000", mapped: "[2001:db8::9]:40001", peers: vec![], bind_ok: true, relay_only: false, tcp: false },
+            Scenario { name: "stale nonce: 401 then 438 with the same realm", user: "user:with:colons", pass: "p@ss:w0rd", challenges: vec![(401, "r e a l m", "n1"), (438, "r e a l m", "n2-rotated")],
+                relayed: "192.0.2.200:65535", mapped: "192.0.2.201:1", peers: vec!["192.0.2.55:7000"], bind_ok: true, relay_only: true, tcp: false },
+            Scenario { name: "realm changes between challenges: 401 realm A then 438 realm B", user: "bob", pass: "hunter2", challenges: vec![(401, "realm-A.example", "nonceA"), (438, "realm-B.example", "nonceB")],
+                relayed: "10.1.2.3:1024", mapped: "10.9.9.9:9", peers: vec!["192.0.2.55:7000", "192.0.2.56:7002", "198.51.100.1:65535"], bind_ok: true, relay_only: true, tcp: false },
+            Scenario { name: "IPv6 relay and peers", user: "dave", pass: "v6pw", challenges: vec![(401, "v6.example", "v6nonce")],
+                relayed: "[2001:db8::aa]:50001", mapped: "[2001:db8::ab]:50002", peers: vec!["[2001:db8::55]:7001", "[2001:db8:ffff:ffff:ffff:ffff:ffff:ffff]:1"], bind_ok: true, relay_only: true, tcp: false },
+            Scenario { name: "ChannelBind refused: data goes in Send indications", user: "u", pass: "a-very-long-password-a-very-long-password-a-very-long-password-a-very-long-password", challenges: vec![(401, "x", "abc")],
+                relayed: "10.1.2.4:1025", mapped: "10.9.9.8:8", peers: vec!["198.51.100.99:9", "203.0.113.77:65535"], bind_ok: false, relay_only: true, tcp: false },
+            Scenario { name: "TURN over TCP", user: "carol", pass: "pw", challenges: vec![(401, "tcp.example", "tcpnonce")],
+                relayed: "10.1.2.5:1026", mapped: "10.9.9.7:7", peers: vec![], bind_ok: true, relay_only: true, tcp: true },
         ];
         let rt = tokio::runtime::Builder::new_multi_thread().worker_threads(2).enable_all().build().unwrap();
         let mut seen: BTreeMap<String, u64> = BTreeMap::new();
         for sc in &scenarios {
-            let (caps, cands) = rt.block_on(run_one(sc));
-            let scj = json!({"user": sc.user, "realm": sc.realm, "nonce": sc.nonce, "relayed": sc.relayed, "mapped": sc.mapped});
-            let key = md5(format!("{}:{}:{}", sc.user, sc.realm, sc.pass).as_bytes());
-            let mut auth_alloc = 0;
-            for c in &caps {
-                let mut m = Message::new();
-                m.raw = c.bytes.clone();
-                let mut fail = None;
+            let o = rt.block_on(run_one(sc));
+            let scj = json!({"scenario": sc.name, "user": sc.user, "challenges": sc.challenges, "relayed": sc.relayed, "peers": sc.peers, "tcp": sc.tcp, "channel_bind_accepted": sc.bind_ok});
+            let mut bound: BTreeMap<u16, SocketAddr> = BTreeMap::new();
+            let mut n_auth_alloc = 0;
+            let (mut n_perm, mut n_bind, mut n_chan, mut n_ind) = (0, 0, 0, 0);
+            let mut bind_channels: Vec<u16> = vec![];
+            for c in &o.caps {
+                let mut fail: Option<String> = None;
+                let known: Option<String> = None;
                 let mut term = "-".to_string();
-                let mut what = "other".to_string();
-                if let Err(e) = m.decode() { fail = Some(format!("webrtc-rs stun rejects a packet the TURN/STUN client sent: {e}")); }
-                else {
-                    what = format!("{}", m.typ);
-                    if let Err(e) = rfc_read(&c.bytes) { fail = Some(format!("not well-formed: {e}")); }
-                    if m.contains(ATTR_FINGERPRINT) { if let Err(e) = stun::fingerprint::FINGERPRINT.check(&m) { fail = Some(format!("FINGERPRINT check fails: {e}")); } }
-                    if m.contains(ATTR_MESSAGE_INTEGRITY) {
-                        // long-term credentials: the key must be MD5(user:realm:pass) (RFC 5389 15.4), checked by the second implementation
-                        let li = stun::integrity::MessageIntegrity::new_long_term_integrity(sc.user.into(), sc.realm.into(), sc.pass.into());
-                        if li.0 != key { fail = Some("harness md5 and webrtc-rs long-term key differ".into()); }
-                        if let Err(e) = li.check(&mut m) { fail = Some(format!("MESSAGE-INTEGRITY does not verify under the long-term key MD5(user:realm:pass): {e}")); }
-                        if text(&m, ATTR_USERNAME).as_deref() != Some(sc.user.as_bytes()) || text(&m, ATTR_REALM).as_deref() != Some(sc.realm.as_bytes()) || text(&m, ATTR_NONCE).as_deref() != Some(sc.nonce.as_bytes()) {
-                            fail = Some("authenticated request does not carry USERNAME / REALM / NONCE of the challenge".into());
+                let what;
+                let first = c.bytes.first().copied().unwrap_or(0xff);
+                if (0x40..0x80).contains(&first) {
+                    // ---- ChannelData (RFC 5766 11.4 / 11.5)
+                    what = "ChannelData".to_string();
+                    n_chan += 1;
+                    if c.bytes.len() < 4 { fail = Some("ChannelData shorter than its header".into()); }
+                    else {
+                        let ch = u16::from_be_bytes([c.bytes[0], c.bytes[1]]);
+                        let l = u16::from_be_bytes([c.bytes[2], c.bytes[3]]) as usize;
+                        if !(0x4000..=0x7FFF).contains(&ch) { fail = Some(format!("channel number {ch:#06x} outside 0x4000..0x7FFF")); }
+                        if !bound.contains_key(&ch) { fail.get_or_insert(format!("ChannelData on channel {ch:#06x} that no successful ChannelBind bound")); }
+                        if 4 + l > c.bytes.len() { fail.get_or_insert(format!("ChannelData length field {l} exceeds the {} bytes sent", c.bytes.len() - 4)); }
+                        else {
+                            let pad = c.bytes.len() - 4 - l;
+                            if sc.tcp { if (4 + l + pad) % 4 != 0 || pad > 3 { fail.get_or_insert(format!("ChannelData over TCP must be padded to a multiple of 4 (length {l}, {pad} trailing bytes)")); } }
+                            else if pad > 3 { fail.get_or_insert(format!("{pad} trailing bytes after the ChannelData payload")); }
+                            let payload = &c.bytes[4..4 + l];
+                            // the payload of a connectivity check is a STUN Binding request
+                            let mut im = Message::new();
+                            im.raw = payload.to_vec();
+                            if im.decode().is_err() || im.typ.method != METHOD_BINDING { fail.get_or_insert("ChannelData payload is not the Binding request of the connectivity check".into()); }
+                            // second implementation
+                            let mut cd = turn::proto::chandata::ChannelData { raw: c.bytes.clone(), ..Default::default() };
+                            match cd.decode() { Ok(()) => if cd.number.0 != ch || cd.data != payload { fail.get_or_insert("webrtc-rs turn reads another channel/payload".into()); },
+                                Err(e) => { fail.get_or_insert(format!("webrtc-rs turn rejects the ChannelData message: {e}")); } }
+                            let mut enc = turn::proto::chandata::ChannelData { data: payload.to_vec(), number: turn::proto::channum::ChannelNumber(ch), raw: vec![] };
+                            enc.encode();
+                            if enc.raw[..4 + l] != c.bytes[..4 + l] { fail.get_or_insert("webrtc-rs turn encodes this channel/payload differently".into()); }
+                            term = format!("KChanData {} {} {}", ch, bytes_term(payload), bytes_term(&c.bytes));
                         }
                     }
-                    if m.typ.method == METHOD_BINDING && m.typ.class == CLASS_REQUEST {
-                        term = format!("KProbe {} {}", bytes_term(&m.transaction_id.0), bytes_term(&c.bytes));
-                    }
-                    if m.typ.method == stun::message::METHOD_REFRESH && m.typ.class == CLASS_REQUEST && m.get(ATTR_LIFETIME).ok() == Some(vec![0, 0, 0, 0]) {
-                        if !m.contains(ATTR_MESSAGE_INTEGRITY) { fail = Some("Refresh(0) without MESSAGE-INTEGRITY".into()); }
-                        term = format!("KTurnDestroy {} {} {} {} {} {}", bytes_term(&m.transaction_id.0), bytes_term(sc.user.as_bytes()), bytes_term(sc.realm.as_bytes()),
-                            bytes_term(sc.nonce.as_bytes()), bytes_term(sc.pass.as_bytes()), bytes_term(&c.bytes));
-                    }
-                    if m.typ.method == METHOD_ALLOCATE && m.typ.class == CLASS_REQUEST {
-                        if m.get(ATTR_REQUESTED_TRANSPORT).ok() != Some(vec![17, 0, 0, 0]) { fail = Some("Allocate without REQUESTED-TRANSPORT = UDP(17)".into()); }
-                        if !m.contains(ATTR_FINGERPRINT) { fail = Some("Allocate without FINGERPRINT".into()); }
-                        if m.contains(ATTR_MESSAGE_INTEGRITY) {
-                            auth_alloc += 1;
-                            term = format!("KTurnAuth {} {} {} {} {} {}", bytes_term(&m.transaction_id.0), bytes_term(sc.user.as_bytes()), bytes_term(sc.realm.as_bytes()),
-                                bytes_term(sc.nonce.as_bytes()), bytes_term(sc.pass.as_bytes()), bytes_term(&c.bytes));
-                        } else {
-                            term = format!("KTurnPlain {} {}", bytes_term(&m.transaction_id.0), bytes_term(&c.bytes));
+                } else {
+                    let mut m = Message::new();
+                    m.raw = c.bytes.clone();
+                    match m.decode() {
+                        Err(e) => { what = "undecodable".into(); fail = Some(format!("webrtc-rs stun rejects a packet the TURN/STUN client sent: {e}")); }
+                        Ok(()) => {
+                            what = format!("{}", m.typ);
+                            if let Err(e) = rfc_read(&c.bytes) { fail = Some(format!("not well-formed: {e}")); }
+                            if m.contains(ATTR_FINGERPRINT) { if let Err(e) = stun::fingerprint::FINGERPRINT.check(&m) { fail = Some(format!("FINGERPRINT check fails: {e}")); } }
+                            let realm_attr = m.get(ATTR_REALM).ok().and_then(|v| String::from_utf8(v).ok());
+                            if m.contains(ATTR_MESSAGE_INTEGRITY) {
+                                // RFC 5389 10.2.2 / 15.4: key = MD5(username ":" realm ":" password) with the REALM the request carries,
+                                // which must be the realm of the latest challenge
+                                if m.get(ATTR_USERNAME).ok().as_deref() != Some(sc.user.as_bytes()) || realm_attr.as_deref() != Some(c.realm.as_str()) || m.get(ATTR_NONCE).ok().as_deref() != Some(c.nonce.as_bytes()) {
+                                    fail = Some(format!("authenticated request does not carry USERNAME / REALM / NONCE of the latest challenge (realm '{}', nonce '{}')", c.realm, c.nonce));
+                                }
+                                let li = stun::integrity::MessageIntegrity::new_long_term_integrity(sc.user.into(), c.realm.clone(), sc.pass.into());
+                                if li.0 != md5(format!("{}:{}:{}", sc.user, c.realm, sc.pass).as_bytes()) { fail = Some("harness md5 and webrtc-rs long-term key differ".into()); }
+                                if let Err(e) = li.check(&mut m) { fail.get_or_insert(format!("MESSAGE-INTEGRITY does not verify under MD5(user:'{}':pass), the long-term key for the realm of the latest challenge: {e}", c.realm)); }
+                            }
+                            let (u, r, n, pw) = (b(sc.user), b(&c.realm), b(&c.nonce), b(sc.pass));
+                            let tx = bytes_term(&m.transaction_id.0);
+                            let by = bytes_term(&c.bytes);
+                            if m.typ.class == CLASS_REQUEST && m.typ.method == METHOD_BINDING { term = format!("KProbe {tx} {by}"); }
+                            else if m.typ.class == CLASS_REQUEST && m.typ.method == METHOD_REFRESH && m.get(ATTR_LIFETIME).ok() == Some(vec![0, 0, 0, 0]) {
+                                if !m.contains(ATTR_MESSAGE_INTEGRITY) { fail = Some("Refresh(0) without MESSAGE-INTEGRITY".into()); }
+                                term = format!("KTurnDestroy {tx} {u} {r} {n} {pw} {by}");
+                            } else if m.typ.class == CLASS_REQUEST && m.typ.method == METHOD_ALLOCATE {
+                                if m.get(ATTR_REQUESTED_TRANSPORT).ok() != Some(vec![17, 0, 0, 0]) { fail = Some("Allocate without REQUESTED-TRANSPORT = UDP(17)".into()); }
+                                if !m.contains(ATTR_FINGERPRINT) { fail = Some("Allocate without FINGERPRINT".into()); }
+                                let i = c.alloc_index.unwrap_or(0);
+                                if i == 0 { if m.contains(ATTR_MESSAGE_INTEGRITY) { fail = Some("first Allocate already authenticated".into()); } term = format!("KTurnPlain {tx} {by}"); }
+                                else {
+                                    n_auth_alloc += 1;
+                                    if !m.contains(ATTR_MESSAGE_INTEGRITY) { fail = Some(format!("Allocate #{i} after a {} challenge carries no MESSAGE-INTEGRITY", sc.challenges[i - 1].0)); }
+                                    // the whole challenge history goes to the model: request i is keyed by the realm of challenge i-1
+                                    let hist = list_term(&sc.challenges.iter().take(i).map(|(_, r, n)| format!("({}, {})", b(r), b(n))).collect::<Vec<_>>());
+                                    term = format!("KTurnAllocN {tx} {u} {pw} {hist} {by}");
+                                }
+                            } else if m.typ.class == CLASS_REQUEST && m.typ.method == METHOD_CREATE_PERMISSION {
+                                n_perm += 1;
+                                match ref_peer(&m) { Some(p) if sc.peers.iter().any(|q| sockaddr_eq(&q.parse().unwrap(), &p)) => term = format!("KTurnPerm {tx} {u} {r} {n} {pw} {} {by}", peer_term(&p)),
+                                    other => fail = Some(format!("CreatePermission for {:?}, which is not a remote candidate", other)) }
+                                if !m.contains(ATTR_MESSAGE_INTEGRITY) { fail = Some("CreatePermission without MESSAGE-INTEGRITY".into()); }
+                            } else if m.typ.class == CLASS_REQUEST && m.typ.method == METHOD_CHANNEL_BIND {
+                                n_bind += 1;
+                                let cn = m.get(ATTR_CHANNEL_NUMBER).ok();
+                                match (cn, ref_peer(&m)) {
+                                    (Some(v), Some(p)) if v.len() == 4 => {
+                                        let ch = u16::from_be_bytes([v[0], v[1]]);
+                                        if !(0x4000..=0x7FFF).contains(&ch) { fail = Some(format!("ChannelBind with channel number {ch:#06x} outside 0x4000..0x7FFF")); }
+                                        if v[2] != 0 || v[3] != 0 { fail = Some("CHANNEL-NUMBER RFFU bytes are not zero".into()); }
+                                        if let Some(q) = bound.get(&ch) { if !sockaddr_eq(q, &p) { fail = Some(format!("channel {ch:#06x} is bound to {q} and requested again for {p}")); } }
+                                        if bound.iter().any(|(k, q)| *k != ch && sockaddr_eq(q, &p)) { fail = Some(format!("{p} already has a channel and is bound to a second one")); }
+                                        let mut rc = turn::proto::channum::ChannelNumber::default();
+                                        use stun::message::Getter;
+                                        if rc.get_from(&m).is_err() || rc.0 != ch { fail.get_or_insert("webrtc-rs turn reads another CHANNEL-NUMBER".into()); }
+                                        if sc.bind_ok { bound.insert(ch, p); }
+                                        if !bind_channels.contains(&ch) { bind_channels.push(ch); }
+                                        // the n-th ChannelBind of a client uses channel 0x4000 + n (the model's next_channel sequence)
+                                        term = format!("KTurnBind {tx} {} {} {u} {r} {n} {pw} {} {by}", n_bind - 1, ch, peer_term(&p));
+                                    }
+                                    _ => fail = Some("ChannelBind without CHANNEL-NUMBER / XOR-PEER-ADDRESS".into()),
+                                }
+                                if !m.contains(ATTR_MESSAGE_INTEGRITY) { fail = Some("ChannelBind without MESSAGE-INTEGRITY".into()); }
+                            } else if m.typ.class == CLASS_INDICATION && m.typ.method == METHOD_SEND {
+                                n_ind += 1;
+                                let data = m.get(ATTR_DATA).ok();
+                                match (ref_peer(&m), data) {
+                                    (Some(p), Some(d)) => {
+                                        if !sc.peers.iter().any(|q| sockaddr_eq(&q.parse().unwrap(), &p)) { fail = Some(format!("Send indication to {p}, not a remote candidate")); }
+                                        let mut im = Message::new();
+                                        im.raw = d.clone();
+                                        if im.decode().is_err() || im.typ.method != METHOD_BINDING { fail = Some("Send indication DATA is not the Binding request of the connectivity check".into()); }
+                                        let mut rd = turn::proto::data::Data::default();
+                                        use stun::message::Getter;
+                                        if rd.get_from(&m).is_err() || rd.0 != d { fail.get_or_insert("webrtc-rs turn reads another DATA".into()); }
+                                        term = format!("KTurnSend {tx} {u} {r} {n} {pw} {} {} {by}", peer_term(&p), bytes_term(&d));
+                                    }
+                                    _ => fail = Some("Send indication without XOR-PEER-ADDRESS / DATA".into()),
+                                }
+                            }
                         }
                     }
                 }
                 *seen.entry(what.clone()).or_default() += 1;
-                out.push(Case { term, desc: json!({"what": "packet captured from rustrtc's TURN/STUN client", "type": what, "bytes": hex(&c.bytes), "scenario": scj}),
-                    oracle_fail: fail, known: None, nontrivial: true, key: format!("cap{}", hex(&c.bytes)), kind: "turn-capture".into() });
+                out.push(Case { term, desc: json!({"what": "packet captured from rustrtc's TURN/STUN client", "type": what, "bytes": hex(&c.bytes), "scenario": scj,
+                        "latest challenge": {"realm": c.realm, "nonce": c.nonce}}),
+                    oracle_fail: fail, known, nontrivial: true, key: format!("cap{}", hex(&c.bytes)), kind: "turn-capture".into() });
             }
-            // public effects: the relay candidate carries the XOR-RELAYED-ADDRESS, the srflx candidate the XOR-MAPPED-ADDRESS the server sent
+            // ---- the TCP byte stream as a standard TURN server would read it (RFC 5389 7.2.2 / RFC 5766 2.1:
+            // STUN messages are self-framed by their length field, ChannelData is padded to 4; nothing else is on the stream)
+            if sc.tcp {
+                let st = &o.raw_stream;
+                let mut fail = None;
+                let mut known = None;
+                if st.len() < 20 { fail = Some("nothing was sent over the TCP connection".to_string()); }
+                else {
+                    let mlen = 20 + u16::from_be_bytes([st[2], st[3]]) as usize;
+                    let rfc_first = st.get(..mlen).map(|m| rfc_read(m).is_ok()).unwrap_or(false);
+                    if !rfc_first {
+                        // listed finding class: every unit is prefixed with its 16-bit length (RFC 4571 style) and is otherwise a valid message
+                        let flen = u16::from_be_bytes([st[0], st[1]]) as usize;
+                        if st.len() >= 2 + flen && rfc_read(&st[2..2 + flen]).is_ok() { known = Some("turn_tcp_length_prefix".to_string()); }
+                        else { fail = Some(format!("TCP stream starts with {}, neither a STUN message nor a length-prefixed one", hex(&st[..st.len().min(24)]))); }
+                    }
+                }
+                let first_frame = if st.len() >= 2 { let n = u16::from_be_bytes([st[0], st[1]]) as usize; st.get(..2 + n).map(|f| (st[2..2 + n].to_vec(), f.to_vec())) } else { None };
+                out.push(Case { term: first_frame.map(|(d, f)| format!("KTcpFrame {} {}", bytes_term(&d), bytes_term(&f))).unwrap_or("-".into()),
+                    desc: json!({"what": "byte stream a real TurnClient wrote to a TURN/TCP server", "first bytes": hex(&st[..st.len().min(48)]), "scenario": scj}),
+                    oracle_fail: fail, known, nontrivial: true, key: format!("tcp{}", sc.name), kind: "turn-capture-tcp".into() });
+            }
+            if !bind_channels.is_empty() {
+                bind_channels.sort();
+                // RFC 5766 11: channel numbers 0x4000..0x7FFF, one per peer
+                let fail = if bind_channels.iter().any(|c| !(0x4000..=0x7FFF).contains(c)) { Some("channel number outside 0x4000..0x7FFF".to_string()) }
+                    else if bind_channels.len() != sc.peers.len() { Some(format!("{} distinct channel numbers for {} peers", bind_channels.len(), sc.peers.len())) } else { None };
+                out.push(Case { term: format!("KChanSeq {}", zlist(bind_channels.iter().map(|c| *c as i128))), desc: json!({"what": "channel numbers a TurnClient allocated", "channels": bind_channels, "scenario": scj}),
+                    oracle_fail: fail, known: None, nontrivial: true, key: format!("chans{}", sc.name), kind: "turn-capture".into() });
+            }
+            // ---- public effects and completeness of the session
             let relayed: SocketAddr = sc.relayed.parse().unwrap();
-            let mapped: SocketAddr = sc.mapped.parse().unwrap();
-            let relay = cands.iter().find(|c| c.typ == IceCandidateType::Relay);
-            let srflx = cands.iter().find(|c| c.typ == IceCandidateType::ServerReflexive);
+            let relay = o.cands.iter().find(|c| c.typ == IceCandidateType::Relay);
             let mut fail = None;
-            if auth_alloc == 0 { fail = Some("no authenticated Allocate request was captured".into()); }
+            if n_auth_alloc != sc.challenges.len() { fail = Some(format!("{} authenticated Allocate requests for {} challenges", n_auth_alloc, sc.challenges.len())); }
             match relay { Some(c) => { if !sockaddr_eq(&c.address, &relayed) { fail = Some(format!("relay candidate {} but the server granted {}", c.address, relayed)); }
-                    // RFC 8445 5.1.2.2: relayed candidates have type preference 0
                     if c.priority as u64 != (0u64 << 24) + (65535 << 8) + 255 { fail = Some(format!("relay candidate priority {}", c.priority)); } }
                 None => fail = Some("no relay candidate after a successful allocation".into()) }
+            if !sc.peers.is_empty() {
+                if n_perm < sc.peers.len() { fail.get_or_insert(format!("{} CreatePermission requests for {} remote candidates", n_perm, sc.peers.len())); }
+                if n_bind < sc.peers.len() { fail.get_or_insert(format!("{} ChannelBind requests for {} remote candidates", n_bind, sc.peers.len())); }
+                if sc.bind_ok && n_chan == 0 { fail.get_or_insert("no ChannelData although channels were bound".into()); }
+                if !sc.bind_ok && n_ind == 0 { fail.get_or_insert("no Send indication although ChannelBind was refused".into()); }
+            }
             out.push(Case { term: relay.map(|c| format!("KPrioT IceCandidateType_Relay {} {}", c.component, c.priority)).unwrap_or("-".into()),
-                desc: json!({"what": "relay candidate gathered through the scripted TURN server", "scenario": scj, "candidates": cands.iter().map(|c| c.to_sdp()).collect::<Vec<_>>()}),
-                oracle_fail: fail, known: None, nontrivial: true, key: format!("relay{}", sc.relayed), kind: "turn-capture".into() });
-            let mut fail = None;
-            match srflx { Some(c) => { if !sockaddr_eq(&c.address, &mapped) { fail = Some(format!("srflx candidate {} but the server reported {}", c.address, mapped)); }
-                    if c.priority as u64 != (100u64 << 24) + (65535 << 8) + 255 { fail = Some(format!("srflx candidate priority {}, RFC 8445 recommends type preference 100", c.priority)); } }
-                None => fail = Some("no server-reflexive candidate after a Binding success".into()) }
-            out.push(Case { term: srflx.map(|c| format!("KPrioT IceCandidateType_ServerReflexive {} {}", c.component, c.priority)).unwrap_or("-".into()),
-                desc: json!({"what": "srflx candidate gathered through the scripted STUN server", "scenario": scj}),
-                oracle_fail: fail, known: None, nontrivial: true, key: format!("srflx{}", sc.mapped), kind: "turn-capture".into() });
+                desc: json!({"what": "relay candidate / session through the scripted TURN server", "scenario": scj, "candidates": o.cands.iter().map(|c| c.to_sdp()).collect::<Vec<_>>(),
+                    "captured": {"CreatePermission": n_perm, "ChannelBind": n_bind, "ChannelData": n_chan, "Send indication": n_ind}}),
+                oracle_fail: fail, known: None, nontrivial: true, key: format!("relay{}", sc.name), kind: "turn-capture".into() });
+            if !sc.relay_only && !sc.tcp {
+                let mapped: SocketAddr = sc.mapped.parse().unwrap();
+                let srflx = o.cands.iter().find(|c| c.typ == IceCandidateType::ServerReflexive);
+                let mut fail = None;
+                match srflx { Some(c) => { if !sockaddr_eq(&c.address, &mapped) { fail = Some(format!("srflx candidate {} but the server reported {}", c.address, mapped)); }
+                        if c.priority as u64 != (100u64 << 24) + (65535 << 8) + 255 { fail = Some(format!("srflx candidate priority {}, RFC 8445 recommends type preference 100", c.priority)); } }
+                    None => fail = Some("no server-reflexive candidate after a Binding success".into()) }
+                out.push(Case { term: srflx.map(|c| format!("KPrioT IceCandidateType_ServerReflexive {} {}", c.component, c.priority)).unwrap_or("-".into()),
+                    desc: json!({"what": "srflx candidate gathered through the scripted STUN server", "scenario": scj}),
+                    oracle_fail: fail, known: None, nontrivial: true, key: format!("srflx{}", sc.name), kind: "turn-capture".into() });
+            }
         }
-        summary.insert("turn capture".into(), json!({"scenarios": scenarios.len(), "captured packet types": seen}));
-        let _ = (Getter::get_from as fn(&mut stun::xoraddr::XorMappedAddress, &Message) -> _, );
+        summary.insert("turn capture".into(), json!({"scenarios": scenarios.iter().map(|s| s.name).collect::<Vec<_>>(), "captured packet types": seen}));
     }
 }
 
